@@ -104,6 +104,11 @@ Proof. vm_compute. eexists. eexists. repeat split. Qed.
 (* the functions this property's model is an abstraction of still have the control / locking / shared-state skeleton the
    model was written against (Skeletons.v, by hand; Extracted.v, regenerated from /repo) *)
 Theorem c02_code_skeletons :
+  (* the hand-over channel is unbuffered: a request that was handed over is in the loop's hands (registered, or failed) and
+     none can be stranded in a queue when the loop ends; the response channel of a request holds one response, so
+     delivering to it never blocks (closeInFlight under its lock, a response racing the caller's cancellation) *)
+  JRGen.Extracted.requester_chan_makes =
+    ["setupRequestChan: make(chan clientRequest)"; "setupRequestChan: make(chan clientResponse, 1)"; "sendRequest: make(chan clientResponse, 1)"]%string /\
   JRGen.Extracted.effects_handleResponse = JR.Skeletons.handleResponse /\
   JRGen.Extracted.effects_handleWsConn = JR.Skeletons.handleWsConn /\
   JRGen.Extracted.effects_setupRequestChan = JR.Skeletons.setupRequestChan.
